@@ -18,9 +18,6 @@ DATABASES = list(ALLDB)
 # workloads that execute Phreeqc::transport(): at most ONE thread of a schedule may run them (known finding: transport.cpp keeps
 # its working state in file-scope globals shared by all instances, so two TRANSPORT runs at the same time race and can crash)
 TRANSPORT_WL = ("transport", "transport_md")
-# workloads that integrate KINETICS (populate Phreeqc::rates_map): the instance is not given another database afterwards
-# (known finding: rates_map is keyed by string addresses and survives clean_up(); see replays/C06/known)
-KINETICS_WL = ("kin_rk", "kin_cvode")
 # small.dat: corpus/mt/small.dat (6 kB, loads in 1 ms) is drawn more often than the two shipped databases
 DB_WEIGHTED = ["small.dat", "small.dat", "small.dat", "phreeqc.dat", "phreeqc.dat", "pitzer.dat"]
 NPARAM = 16
